@@ -314,7 +314,7 @@ def tag_haplotypes(rng, m):
             for p in g["pieces"]:
                 p[4][:] = ["Painted", h]
             order.append(g)
-    if order and rng.random() < 0.08 and len(order[0]["pieces"]) > 1:
+    if order and rng.random() < 0.15 and len(order[0]["pieces"]) > 1:
         # the same haplotype spelt two ways inside one scaffold (the tool refuses this)
         pc = order[0]["pieces"][-1]
         pc[4][:] = [t.upper() if t.startswith("Hap") else t for t in pc[4]]
